@@ -149,6 +149,13 @@ theorem flatMap_select {β : Type} (l : List (K × V)) (hn : (akeys l).Nodup) (k
 
 end
 
+theorem nodup_of_map_nodup {α β : Type} (f : α → β) (l : List α) (h : (l.map f).Nodup) : l.Nodup := by
+  induction l with
+  | nil => simp
+  | cons a l ih =>
+    simp only [List.map_cons, List.nodup_cons, List.mem_map, not_exists, not_and] at h ⊢
+    exact ⟨fun ha => h.1 a ha rfl, ih h.2⟩
+
 /-! ### unique ids -/
 
 /-- Routes with the same id are the same route (the list may repeat a route). -/
